@@ -90,3 +90,13 @@ claim("C03",
       "Trusted: rustc MIR and type information; std Weak/Rc semantics. With R1-R3 a collection can differ from 'never collect' only through "
       "the algorithm in GcContext::gc, which stays with the repository's gc unit tests.",
       "DESIGN.md §2 C03")
+claim("C18",
+      "unit inference (Bytes/Chars/User/Trunc) over MIR integer quantities with unification and sink rules; who-calls table of code-point primitives",
+      "Decides the first sentence of C18 structurally: (R1) in every string-handling function of rsjsonnet-lang no integer quantity is related "
+      "both to a byte length/offset and to a code-point count, byte quantities never reach code-point positions (nth/skip/take over chars()) and "
+      "never become Jsonnet numbers (closures mapped over find() results included); (R2) the code-point builtins iterate chars() and take no "
+      "byte/UTF-16 view; (R3) byte indices into strings are untruncated byte quantities (no char-boundary panic). The split/join/strip/replace "
+      "identities are delegated to std and not decided.",
+      "Trusted: rustc MIR; std str API semantics (len/find/char_indices in bytes, chars().count() in code points); strings produced by numeric "
+      "formatting are ASCII. Documented miss: `offset +- constant` after a search is accepted.",
+      "DESIGN.md §2 C18")
